@@ -9,9 +9,12 @@ Float text is the parameter `ft : FloatText` with the assumed laws `L : FloatLaw
 import Hts.Lemmas.SamRecord
 import Hts.Lemmas.SamStable
 import Hts.Lemmas.SamReader
+import Hts.Lemmas.SamNoHeader
 import Hts.Lemmas.SamSpec
+import Hts.Lemmas.SamBam
+import Hts.Props.C05
 namespace Hts.Props.C06
-open Hts.Model.SamText
+open Hts.Model.SamText Hts.Model.SamBam
 open Hts.Model.Coord (CigarOp)
 
 /-! ### field-level round trips -/
@@ -113,6 +116,28 @@ theorem bam_then_sam (ft : FloatText) (f : FlagFmt) (r : Record) :
     simp [formatQual, this]
   | some q => simp
 
+/-! ### the bridge to the BAM record model (C05) -/
+
+theorem repOK_of_expressible (h : Header) (r : Record) (he : Expressible h r) (hb : BamRange h r) : RepOK r :=
+  ⟨fun co hco => ⟨Nat.lt_of_le_of_lt (he.2.2.2.2.1.1 co hco).1 (by decide), (he.2.2.2.2.1.1 co hco).2⟩,
+   fun a ha => ⟨auxRep_of_auxOK a (he.2.2.2.2.2.2 a ha), hb.2.2.2.2.2.1 a ha⟩⟩
+
+/-- **SAM and BAM views agree** (formal bridge between C05's and C06's record models).  For every expressible
+record within the ranges of the BAM format and without a zero byte in an `H` value: the BAM writer accepts
+its memory form `toBam r`; reading the written bytes back (C05.decode_encode) gives a memory form that
+`ofBam` decodes to a record, namely `norm r`, and that record formats to the SAM line of `r`, in every flag
+format. -/
+theorem bam_roundtrip_then_sam (ft : FloatText) (f : FlagFmt) (h : Header) (r : Record) (he : Expressible h r)
+    (hb : BamRange h r) (hx : HexNulFree r) :
+    ∃ bs, Hts.Model.Bam.encodeRecord (toBam r) = .ok bs ∧
+      ∀ rest, ∃ b', Hts.Model.Bam.readRecord .none h.refs.length (bs ++ rest) = .record b' rest ∧
+        ofBam h b' = some (norm r) ∧ formatRecord ft f (norm r) = formatRecord ft f r := by
+  obtain ⟨bs, henc, hdec⟩ := Hts.Props.C05.decode_encode (wf_toBam h r he hb hx)
+  refine ⟨bs, henc, fun rest => ⟨_, hdec rest, ?_, bam_then_sam ft f r⟩⟩
+  rw [norm_toBam]
+  have hrep := repOK_of_expressible h r he hb
+  exact ofBam_toBam h (norm r) he.2.1 he.2.2.1 hrep
+
 /-! ### the reader -/
 
 /-- a reader over an input with header returns exactly the lines of the input as records: LF or CRLF
@@ -125,13 +150,56 @@ theorem reader_lines (ft : FloatText) (h : Header) (ls : List (Bytes × Bool)) (
   rw [reader_lines_strip ls final hl hlast, List.map_map]
   rfl
 
-/-- the same without header lines (references are created as they are met) -/
-theorem reader_lines_noheader (ft : FloatText) (ls : List (Bytes × Bool)) (final : Bool)
-    (hl : ∀ p ∈ ls, (∀ c ∈ p.1, c ≠ 10) ∧ p.1.getLast? ≠ some 13)
-    (hlast : final = false → ∀ p, ls.getLast? = some p → p.1 ≠ []) :
-    readAllNoHeader ft (joinLines ls final) = noHeaderLoop ft (ls.map (·.1)) [] := by
+/-- **for every input**: the lines the reader parses are the lines of the text as the specification's
+splitter `Spec.SamLine.textLines` (written independently: LF ends a line, one CR before it belongs to the
+line end, a non-empty unterminated rest is a line) finds them -/
+theorem reader_lines_spec (ft : FloatText) (h : Header) (body : Bytes) :
+    readAll ft h body = (Hts.Spec.SamLine.textLines body).map (parseRecord ft (some h)) := by
+  unfold readAll
+  rw [readerLines_textLines]
+
+/-- without header lines, for every input: the per-line step of the no-header mode (`noHeaderLoop`: parse with
+a nil header, then give each reference name the id of its first appearance) runs over exactly the
+specification's lines of the text.  What the step returns for the lines of expressible records is
+`reader_noheader_records`. -/
+theorem reader_lines_noheader (ft : FloatText) (body : Bytes) :
+    readAllNoHeader ft body = noHeaderLoop ft (Hts.Spec.SamLine.textLines body) [] := by
   unfold readAllNoHeader
-  rw [reader_lines_strip ls final hl hlast]
+  rw [readerLines_textLines]
+
+/-- no-header mode at record level: for a text made of the lines of expressible records (any line ends, final
+newline or not), every `Read` succeeds, and the i-th record returned prints the i-th line again, equals the
+canonical form of the i-th record in every field except the references, and its references carry the
+names of the original ones -/
+theorem reader_noheader_records {ft : FloatText} (L : FloatLaws ft) (h : Header) (hh : HeaderOK h) (f : FlagFmt)
+    (hf : f = .dec ∨ f = .hex) (rs : List Record) (he : ∀ r ∈ rs, Expressible h r) (body : Bytes)
+    (hbody : Hts.Spec.SamLine.textLines body = rs.map fun r => joinWith 9 (recordFields ft f r)) :
+    ∃ outs, readAllNoHeader ft body = outs.map .ok ∧
+      listRel (fun r out => formatRecord ft f out = formatRecord ft f r ∧
+        eraseRefs out = eraseRefs (canonRecord L r) ∧ refName out.ref = refName r.ref ∧
+        refName out.mateRef = refName r.mateRef) rs outs := by
+  rw [reader_lines_noheader, hbody]
+  obtain ⟨outs, h1, h2⟩ := noHeaderLoop_records L h hh f hf rs he [] List.nodup_nil
+  refine ⟨outs, h1, ?_⟩
+  clear h1 hbody
+  induction rs generalizing outs with
+  | nil => cases outs <;> simp_all [listRel]
+  | cons r rs ih =>
+    cases outs with
+    | nil => exact h2
+    | cons o os =>
+      obtain ⟨⟨hf1, he1, hr1, hm1⟩, hrest⟩ := h2
+      refine ⟨⟨?_, he1, hr1, hm1⟩, ih (fun x hx => he x (List.mem_cons_of_mem _ hx)) os hrest⟩
+      have hq : QualOK r := (he r List.mem_cons_self).2.2.2.2.2.1
+      have hqo : QualOK o := by
+        have : QualOK (canonRecord L r) := qualOK_canon L r hq
+        have hs : o.seq = (canonRecord L r).seq := by
+          show (eraseRefs o).seq = (eraseRefs (canonRecord L r)).seq; rw [he1]
+        have hqq : o.qual = (canonRecord L r).qual := by
+          show (eraseRefs o).qual = (eraseRefs (canonRecord L r)).qual; rw [he1]
+        unfold QualOK at this ⊢
+        rw [hs, hqq]; exact this
+      rw [formatRecord_ok f o hqo, formatRecord_ok f r hq, hf1]
 
 /-- writing expressible records as lines and reading them returns every record (in canonical form),
 whatever the line ends and whether or not the last line is terminated -/
@@ -187,55 +255,43 @@ theorem write_then_read {ft : FloatText} (L : FloatLaws ft) (h : Header) (hh : H
     obtain ⟨q, hq, rfl⟩ := hmem
     exact (hline q hq).2
 
-/-- with header lines in front: NewReader hands exactly the header lines (each starting with `@` and
-newline-terminated) to the header parser and the reader then returns the lines after them -/
-theorem reader_header_then_lines (ft : FloatText) (h : Header) (hls : List Bytes) (ls : List (Bytes × Bool))
-    (final : Bool) (hne : hls ≠ [])
+/-- the whole reader on a text with header lines: NewReader hands exactly the header lines (each starting
+with `@`, newline-terminated) to the header parser `ph` (`Header.UnmarshalText`, C07: a parameter here), and
+the records are parsed against the header `ph` returns for that text, one per line of the rest — for every
+rest that does not start with `@` -/
+theorem reader_header_then_lines (ft : FloatText) (ph : Bytes → Option Header) (hls : List Bytes) (body : Bytes)
+    (hne : hls ≠ [])
     (hh : ∀ l ∈ hls, (∃ rest, l = 64 :: rest) ∧ ∀ c ∈ l, c ≠ 10)
-    (hl : ∀ p ∈ ls, (∀ c ∈ p.1, c ≠ 10) ∧ p.1.getLast? ≠ some 13 ∧ ∀ c rest, p.1 = c :: rest → c ≠ 64)
-    (hlast : final = false → ∀ p, ls.getLast? = some p → p.1 ≠ []) :
-    ∃ body, splitHeader ((headerText hls ++ joinLines ls final).length + 1) [] (headerText hls ++ joinLines ls final) =
-        some (headerText hls, body) ∧
-      readAll ft h body = ls.map fun p => parseRecord ft (some h) p.1 := by
-  refine ⟨joinLines ls final, ?_, reader_lines ft h ls final (fun p hp => ⟨(hl p hp).1, (hl p hp).2.1⟩) hlast⟩
-  have hb : ∀ c rest, joinLines ls final = c :: rest → c ≠ 64 := by
-    intro c rest hj
-    cases ls with
-    | nil => simp [joinLines] at hj
-    | cons p ps =>
-      have hp := (hl p List.mem_cons_self).2.2
-      cases hp1 : p.1 with
-      | nil =>
-        -- an empty first line: the input continues with its line end or is empty
-        cases ps with
-        | nil =>
-          simp only [joinLines, hp1] at hj
-          split at hj
-          · cases hb2 : p.2 <;> simp [eol, hb2] at hj <;> (rw [← hj.1]; decide)
-          · simp at hj
-        | cons q qs =>
-          simp only [joinLines, hp1] at hj
-          cases hb2 : p.2 <;> simp [eol, hb2] at hj <;> (rw [← hj.1]; decide)
-      | cons d ds =>
-        have hd := hp d ds hp1
-        cases ps with
-        | nil =>
-          simp only [joinLines, hp1] at hj
-          split at hj <;> (simp at hj; rw [← hj.1]; exact hd)
-        | cons q qs =>
-          simp only [joinLines, hp1] at hj
-          simp at hj; rw [← hj.1]; exact hd
-  have := splitHeader_spec hls (joinLines ls final) hh hb
-    ((headerText hls ++ joinLines ls final).length + 1) []
-    (by
-      have : hls.length ≤ (headerText hls).length := by
-        clear hh hne
-        induction hls with
-        | nil => simp
-        | cons x xs ih => simp [headerText] at ih ⊢; omega
-      simp; omega)
+    (hb : ∀ c rest, body = c :: rest → c ≠ 64) :
+    readFile ft ph (headerText hls ++ body) =
+      (ph (headerText hls)).map fun h => (Hts.Spec.SamLine.textLines body).map (parseRecord ft (some h)) := by
+  have hlen : hls.length < (headerText hls ++ body).length + 1 := by
+    have : hls.length ≤ (headerText hls).length := by
+      clear hh hne
+      induction hls with
+      | nil => simp
+      | cons x xs ih => simp [headerText] at ih ⊢; omega
+    simp; omega
+  have hs := splitHeader_spec hls body hh hb ((headerText hls ++ body).length + 1) [] hlen
     (fun e _ => absurd e hne)
-  simpa using this
+  have hnonempty : (headerText hls).isEmpty = false := by
+    cases hls with
+    | nil => exact absurd rfl hne
+    | cons l ls => simp [headerText]
+  unfold readFile
+  simp only [List.nil_append] at hs
+  rw [hs]
+  simp only [hnonempty, Bool.false_eq_true, if_false]
+  congr 1
+  funext h
+  exact reader_lines_spec ft h body
+
+/-- … and without header lines (a text that does not start with `@`): the no-header mode over the whole text -/
+theorem reader_no_header_lines (ft : FloatText) (ph : Bytes → Option Header) (c : UInt8) (rest : Bytes) (hc : c ≠ 64) :
+    readFile ft ph (c :: rest) = some (noHeaderLoop ft (Hts.Spec.SamLine.textLines (c :: rest)) []) := by
+  unfold readFile
+  simp only [List.length_cons, splitHeader, ne_eq, hc, not_false_eq_true, if_true, List.isEmpty_nil]
+  rw [reader_lines_noheader]
 
 /-! ### non-vacuity -/
 
@@ -253,6 +309,37 @@ example : HeaderOK exHeader := by decide
 example : Expressible exHeader exRecord := by decide
 /-- the single quality 9 is the one value the text cannot carry: it prints as `*` -/
 example : formatQual (some [9]) = formatQual none := by decide
+
+
+example : BamRange exHeader exRecord := by
+  refine ⟨by decide, by decide, by decide, by decide, by decide, ?_, by decide⟩
+  intro a ha
+  simp only [exRecord, List.mem_cons, List.not_mem_nil, or_false] at ha
+  rcases ha with rfl | rfl | rfl | rfl | rfl | rfl | rfl | rfl <;> simp [AuxCountOK]
+example : HexNulFree exRecord := by
+  intro a ha s hs
+  simp only [exRecord, List.mem_cons, List.not_mem_nil, or_false] at ha
+  rcases ha with rfl | rfl | rfl | rfl | rfl | rfl | rfl | rfl <;> simp at hs
+  subst hs; simp
+
+/-- a record with the aux field `XH:H:9F0068` (an `H` value holding a zero byte) -/
+def hexRecord : Record :=
+  { name := [114], flags := 4, ref := none, pos := -1, mapq := 0, cigar := [], mateRef := none, matePos := -1,
+    tempLen := 0, seq := [], qual := none, aux := [⟨88, 72, .hex [159, 0, 104]⟩] }
+
+/-- the `HexNulFree` hypothesis is needed: for `XH:H:9F0068` everything else holds and the record read back
+from the written bytes is not the record written (its `H` value is cut at the zero byte) -/
+theorem bam_hex_nul_witness :
+    Expressible exHeader hexRecord ∧ BamRange exHeader hexRecord ∧ ¬ HexNulFree hexRecord ∧
+    ∃ bs b', Hts.Model.Bam.encodeRecord (toBam hexRecord) = .ok bs ∧
+      Hts.Model.Bam.readRecord .none 2 bs = .record b' [] ∧
+      ofBam exHeader b' = some (norm { hexRecord with aux := [⟨88, 72, .hex [159]⟩] }) := by
+  refine ⟨by decide, ⟨by decide, by decide, by decide, by decide, by decide, ?_, by decide⟩, ?_, ?_⟩
+  · intro a ha; simp [hexRecord] at ha; subst ha; trivial
+  · intro hn
+    exact hn ⟨88, 72, .hex [159, 0, 104]⟩ (by simp [hexRecord]) [159, 0, 104] rfl (by decide)
+  · exact ⟨_, Hts.Model.Bam.norm (toBam { hexRecord with aux := [⟨88, 72, .hex [159]⟩] }), rfl,
+      by decide +kernel, by decide +kernel⟩
 
 /-- the float laws are satisfiable (a toy float text: the bit pattern in decimal) -/
 def exFloatText : FloatText where
